@@ -30,6 +30,11 @@ def in_process_worlds(rng, full):
         n = 14
         add([dict(rng.choice([stat, {"op": "OPEN_DIR", "path": "/a"}, {"op": "READ_DIR"}]), delayMs=rng.randrange(T_IN // 10, T_IN * 7 // 10)) for _ in range(n)],
             rng.choice(["close", "timeout"]))
+    # a peer that asks for a large transfer, stops reading it and stays silent: cut T after the transfer stopped moving
+    nodes.append(srv.fnode(["a", "big.bin"], 400000, cid="t_big", mtime=t + 2))
+    for op, k in ([("READ_FILE_CRITICAL", 5000), ("READ_FILE", 3), ("READ_FILE", 70000)] if not full else
+                  [("READ_FILE_CRITICAL", 1), ("READ_FILE_CRITICAL", 5000), ("READ_FILE_CRITICAL", 140000), ("READ_FILE", 3), ("READ_FILE", 4), ("READ_FILE", 70000)]):
+        add([stat, {"op": "OPEN_FILE", "path": "/a/big.bin"}, {"op": op, "limit": 300000, "off": 0, "stallWriteAfter": k}], "close")
     w = {"name": "timeout-%d" % T_IN, "aw": False, "nodes": nodes, "conns": conns, "schedule": "conc", "readTimeoutMs": T_IN, "quiesce": True}
     # no timeout configured: never armed, never cut
     w0 = {"name": "no-timeout", "aw": False, "nodes": nodes, "schedule": "conc", "readTimeoutMs": 0, "quiesce": True,
